@@ -31,6 +31,11 @@ func prefixMountPoint(mountPoint string, t []byte) []byte {
 	copy(out[len(mountPoint)+1:], t)
 	return out
 }
+
+// PrefixMountPoint returns the given topic, qualified with the given mountpoint.
+func PrefixMountPoint(mountPoint string, topic []byte) []byte {
+	return prefixMountPoint(mountPoint, topic)
+}
 func trimMountPoint(mountPoint string, t []byte) []byte {
 	return t[len(mountPoint)+1:] // Trim mountpoint + /
 }
